@@ -560,6 +560,7 @@ fn report_violation(
         samples: if aux_samples > 0 { aux_samples.max(4096) } else { 0 },
         executions: 0,
         budget: 400,
+        deadline: Instant::now() + std::time::Duration::from_secs(90),
     };
     let min = sh.minimise(steps.clone()).unwrap_or(steps.clone());
     let (detail, final_steps) = match sh.fires(&min) {
